@@ -1,12 +1,19 @@
-import Pm.Find
+import Pm.HLFind
+import Pm.SortFProof
+import Pm.RoundTrip
 /-! # C14 — host-range notation round-trips without changing any name
 
-Property theorems over the hostlist mirrors (`Pm/HL.lean`, `Find.lean`), which are compared with the real
-`liblsd/hostlist.c` answer by answer on every run.  Helper lemmas: `Pm/Num.lean`, `Digits.lean`, `HLProof.lean`, `Find.lean`.
+Property theorems over the hostlist mirrors (`Pm/HL.lean`, `Find.lean`, `Create.lean`, `Sort.lean`), which are compared with the real
+`liblsd/hostlist.c` answer by answer on every run.  Helper lemmas: `Pm/Num.lean`, `Digits.lean`, `HLProof.lean`, `Find.lean`,
+`HLDefs.lean`, `HLMore.lean` (well-formedness, count, nth, print/parse inverses), `HLFind.lean` (find completeness, delete),
+`SortF.lean` + `SortFProof.lean` (total restatement of `hostlist_sort` and its permutation proof), `RoundTrip.lean` (string round trip).
 
-Ranking: push appends exactly the pushed name (done) ▸ find is sound (done) ▸ width handling changes no printed name (done)
-▸ count / nth / delete_one / find completeness under the documented suffix bound ▸ round trip of the compressed string
-▸ sort is a permutation (needs the sort mirrors restated without `partial`). -/
+Contents: push appends exactly the pushed name ▸ find is sound ▸ width handling changes no printed name ▸ 1. well-formedness is
+kept by push / delete / create, so a list built by pushing names denotes exactly those names ▸ 2. count and nth agree with the
+expansion ▸ 3. find is complete (first occurrence) under the suffix bound the code imposes (F10 is the counterexample), with no proviso
+for lists built by pushes and deletes ▸ 4. delete removes exactly the first occurrence ▸ 5. the compressed string parses back to the
+same names (ranges of at most 16384 hosts; a larger one is the counterexample) ▸ 6. sort is a permutation of the names
+(total restatement `sortHLF` of the `partial` sort mirrors; F19 is the abort counterexample). -/
 namespace Pm.Props.C14
 open Pm
 
@@ -46,5 +53,281 @@ example : find (pushHost [] "foo1".toList) "foo01".toList = none := by decide
 example : find (pushHost (pushHost [] "foo1".toList) "foo01".toList) "foo01".toList = some 1 := by decide
 /-- premises are satisfiable on a non-trivial list (a merged range with a width, then a name that does not merge) -/
 example : WF (pushHost (pushHost (pushHost [] "n08".toList) "n09".toList) "n10".toList) := by unfold WF; decide
+
+/-! ## 1. well-formedness is kept by every operation, so the push theorem applies along any sequence of pushes -/
+
+/-- `WF` here and `HWF` of the helper modules are the same predicate -/
+theorem WF_iff_HWF (hl : Hostlist) : WF hl ↔ HWF hl := Iff.rfl
+
+/-- the stronger shape every constructor really produces (`HWFS`: a single name is stored with `lo = hi = 0`,
+    a numeric range has `lo ≤ hi`) implies `WF` -/
+theorem WF_of_HWFS (hl : Hostlist) (h : HWFS hl) : WF hl := h.toHWF
+
+/-- the empty list is well formed -/
+theorem C14_nil_WF : WF [] := HWF_nil
+
+/-- `hostlist_push_host` keeps every range well formed -/
+theorem C14_push_WF (hl : Hostlist) (n : Name) (h : WF hl) : WF (pushHost hl n) := pushHost_HWF hl n h
+
+/-- `hostlist_delete_host` (find, then `hostlist_delete_nth` splitting / shrinking / dropping a range) keeps every
+    range well formed -/
+theorem C14_delete_WF (hl : Hostlist) (n : Name) (h : WF hl) : WF (deleteHost hl n).1 := deleteHost_HWF hl n h
+
+/-- whatever `hostlist_create` accepts is well formed (a bracket range with `lo > hi` is refused by the parser) -/
+theorem C14_create_WF (s : List Char) (hl : Hostlist) (h : create s = .ok hl) : WF hl := create_HWF s hl h
+
+/-- the same three facts for the strong shape `HWFS`, which the sort theorem needs -/
+theorem C14_push_WFS (hl : Hostlist) (n : Name) (h : HWFS hl) : HWFS (pushHost hl n) := pushHost_HWFS hl n h
+theorem C14_delete_WFS (hl : Hostlist) (n : Name) (h : HWFS hl) : HWFS (deleteHost hl n).1 := deleteHost_HWFS hl n h
+theorem C14_create_WFS (s : List Char) (hl : Hostlist) (h : create s = .ok hl) : HWFS hl := create_HWFS s hl h
+
+/-- a list built by pushing names denotes exactly those names, in the order pushed — for every list of names,
+    of any length, with duplicates, zero padding, digit-only names and numeric parts beyond `MAX_HOST_SUFFIX` -/
+theorem C14_push_all (names : List Name) : expand (names.foldl pushHost []) = names := by
+  simpa [expand_nil] using expand_foldl_pushHost names [] HWF_nil
+
+example : expand (["n08", "n09", "n10", "n010", "x", "n11", "7", "n99999999999"].map String.toList |>.foldl pushHost [])
+    = ["n08", "n09", "n10", "n010", "x", "n11", "7", "n99999999999"].map String.toList := C14_push_all _
+/-- … and that list really is compressed (three ranges + three singles, not eight entries) -/
+example : (["n08", "n09", "n10", "n010", "x", "n11", "7", "n99999999999"].map String.toList |>.foldl pushHost []).length = 6 := by
+  decide +kernel
+
+/-! ## 2. count and index lookups agree with the expansion -/
+
+/-- `hostlist_count` (the `nhosts` field, maintained as the sum of `hostrange_count` over the ranges) is the number
+    of names in the expansion -/
+theorem C14_count_expand (hl : Hostlist) (h : WF hl) : (hl.map HostRange.count).sum = (expand hl).length :=
+  count_expand hl h
+
+/-- `hostlist_nth`: the mirror `nth` of `Sort.lean` is *defined* as the i-th element of the expansion, so this
+    statement about it is empty; the informative one is `C14_nthC_expand` below -/
+theorem C14_nth_expand (hl : Hostlist) (i : Nat) : nth hl i = (expand hl)[i]? := rfl
+
+/-- `hostlist_nth` AS CODED (`nthC`: walk the ranges with a running count, print `prefix` + `%0*lu` of `lo + depth`)
+    returns exactly the i-th name of the expansion, and NULL (`none`) exactly beyond its end -/
+theorem C14_nthC_expand (hl : Hostlist) (i : Nat) (h : WF hl) : nthC hl i = (expand hl)[i]? := nthC_spec hl i h
+
+/-- so the coded walk and the mirror used by the driver agree on well-formed lists -/
+theorem C14_nthC_eq_nth (hl : Hostlist) (i : Nat) (h : WF hl) : nthC hl i = nth hl i := nthC_eq_nth hl i h
+
+example : nthC (pushHost (pushHost (pushHost [] "n08".toList) "n09".toList) "n10".toList) 2 = some "n10".toList := by
+  decide +kernel
+/-- `WF` is needed: on a range with `lo > hi` (which no constructor builds) the coded walk invents a name -/
+theorem C14_nthC_needs_WF : nthC [{ pfx := "n".toList, lo := 5, hi := 3, width := 1, single := false }] 0 = some "n5".toList
+    ∧ expand [{ pfx := "n".toList, lo := 5, hi := 3, width := 1, single := false }] = [] := nthC_needs_WF
+
+/-! ## 3. membership: `hostlist_find` is complete under the proviso the code needs -/
+
+/- Full-strength statement (FALSE of the code, see `C14_find_complete_counterexample`, known defect F10):
+     theorem C14_find_complete (hl) (n) (h : WF hl) (hmem : n ∈ expand hl) : find hl n = some ((expand hl).idxOf n) -/
+
+/-- `hostlist_find` returns the index of the FIRST occurrence of every member name — provided that each entry
+    holding the name is a single name, or the name's trailing digit string (the numeric suffix `hostname_create`
+    cuts off) has a value of at most `MAX_HOST_SUFFIX` = 2^25 (`Findable`).  This is the extra hypothesis; it is
+    exactly what the code needs: `hostrange_hn_within` refuses to look into a numeric range for a name whose
+    suffix is "not valid" (`C14_find_proviso_sharp`).  Well-formedness is not needed here. -/
+theorem C14_find_complete_partial (hl : Hostlist) (n : Name) (hmem : n ∈ expand hl)
+    (hprov : ∀ r ∈ hl, n ∈ r.expand → r.single = true ∨ parseNat (splitDigits n).2 ≤ MAX_HOST_SUFFIX) :
+    find hl n = some ((expand hl).idxOf n) :=
+  find_complete hl n hmem hprov
+
+/-- names that are not members are not found (contrapositive of soundness) -/
+theorem C14_find_none (hl : Hostlist) (n : Name) (h : n ∉ expand hl) : find hl n = none := find_none_of_not_mem hl n h
+
+/-- the proviso cannot be dropped: a numeric range never matches a name whose trailing digit string exceeds 2^25 -/
+theorem C14_find_proviso_sharp (r : HostRange) (hs : r.single = false) (n : Name)
+    (hbig : ¬ parseNat (splitDigits n).2 ≤ MAX_HOST_SUFFIX) :
+    hnWithin r n (splitDigits n).1 (splitDigits n).2 = none :=
+  hnWithin_none_of_big r hs n _ _ hbig
+
+/-- F10: `n[100000000-100000001]` is accepted by `hostlist_create`, holds `n100000000`, and `hostlist_find` misses it -/
+theorem C14_find_complete_counterexample :
+    ∃ hl, create "n[100000000-100000001]".toList = .ok hl ∧ WF hl ∧ "n100000000".toList ∈ expand hl
+      ∧ find hl "n100000000".toList = none :=
+  ⟨f10List, f10_create, create_HWF _ _ f10_create, f10_mem, f10_find⟩
+
+/-- the bound is on the NAME's whole digit tail, not on the number stored in the range: `n1[00000000-00000001]`
+    holds `n100000000` as number 0 of prefix `n1`, and `hostlist_find` misses it too -/
+theorem C14_find_complete_counterexample2 :
+    ∃ hl, create "n1[00000000-00000001]".toList = .ok hl ∧ "n100000000".toList ∈ expand hl
+      ∧ find hl "n100000000".toList = none :=
+  ⟨f10bList, f10b_create, f10b_mem, f10b_find⟩
+
+/-- for lists reached from the empty list by pushes and deletes (`Built`) no proviso is needed: `hostlist_push_host`
+    stores a name with an oversized numeric part as a single name, and gives numeric ranges a digit-free prefix end -/
+theorem C14_find_complete_built (hl : Hostlist) (n : Name) (hb : Built hl) (hmem : n ∈ expand hl) :
+    find hl n = some ((expand hl).idxOf n) := find_built hl n hb hmem
+
+/-- in particular every pushed name is found at the position of its first push -/
+theorem C14_find_pushed (names : List Name) (n : Name) (hmem : n ∈ names) :
+    find (names.foldl pushHost []) n = some (names.idxOf n) := find_pushed names n hmem
+
+example : find (["n08", "n09", "n10", "n99999999999", "n09"].map String.toList |>.foldl pushHost []) "n09".toList = some 1 :=
+  C14_find_pushed _ _ (by decide +kernel)
+example : Built (pushHost (pushHost [] "n08".toList) "n09".toList) := Built.push _ _ (Built.push _ _ Built.nil)
+/-- the proviso of `C14_find_complete_partial` is satisfiable on a list from `hostlist_create` with a digit-ended prefix,
+    where the shifting retry of `hostrange_hn_within` is exercised -/
+example : find [{ pfx := "n1".toList, lo := 0, hi := 1, width := 1, single := false }] "n11".toList = some 1 := shift_ok.2
+
+example : "n11".toList ∈ expand [{ pfx := "n1".toList, lo := 0, hi := 1, width := 1, single := false }] ∧
+    ∀ r ∈ [({ pfx := "n1".toList, lo := 0, hi := 1, width := 1, single := false } : HostRange)],
+      "n11".toList ∈ r.expand → r.single = true ∨ parseNat (splitDigits "n11".toList).2 ≤ MAX_HOST_SUFFIX := by decide +kernel
+
+/-- padding is significant: the index `hostlist_find` returns for `n` never holds a different name `m`
+    (`foo01` is never found as `foo1`, nor `foo1` as `foo01`) -/
+theorem C14_padding_significant (hl : Hostlist) (n m : Name) (i : Nat) (hne : n ≠ m) (h : find hl n = some i) :
+    (expand hl)[i]? ≠ some m := by
+  rw [find_sound hl n i h]; intro e; exact hne (Option.some.inj e)
+
+example : find [{ pfx := "foo".toList, lo := 1, hi := 3, width := 2, single := false }] "foo1".toList = none := by decide +kernel
+example : find [{ pfx := "foo".toList, lo := 1, hi := 3, width := 2, single := false }] "foo01".toList = some 0 := by decide +kernel
+example : find [{ pfx := "foo".toList, lo := 1, hi := 3, width := 1, single := false }] "foo01".toList = none := by decide +kernel
+
+/-- membership and index lookups agree: the index `hostlist_find` returns is one at which `hostlist_nth` (as coded)
+    returns that very name -/
+theorem C14_find_nth (hl : Hostlist) (n : Name) (i : Nat) (h : WF hl) (hf : find hl n = some i) : nthC hl i = some n := by
+  rw [nthC_spec hl i h]; exact find_sound hl n i hf
+
+/-! ## 4. deleting one name removes exactly its first occurrence and nothing else -/
+
+/-- `hostlist_delete_nth` removes exactly position `i` of the expansion (splitting a range in two, shrinking it at
+    either end, or dropping it) and changes no other name -/
+theorem C14_delete_nth (hl : Hostlist) (i : Nat) (h : WF hl) : expand (deleteNth hl i) = (expand hl).eraseIdx i :=
+  deleteNth_expand hl i h
+
+/- Full-strength statement (FALSE without the proviso, by F10: `f10_delete` — the member is not deleted, 0 is returned):
+     theorem C14_delete_one (hl) (n) (h : WF hl) : expand (deleteHost hl n).1 = (expand hl).erase n ∧ … -/
+
+/-- `hostlist_delete_host` removes exactly the FIRST occurrence of the name from the expansion, changes nothing else,
+    and returns 1 if the name was a member and 0 otherwise — under the same proviso as `C14_find_complete_partial` -/
+theorem C14_delete_one (hl : Hostlist) (n : Name) (h : WF hl)
+    (hprov : ∀ r ∈ hl, n ∈ r.expand → r.single = true ∨ parseNat (splitDigits n).2 ≤ MAX_HOST_SUFFIX) :
+    expand (deleteHost hl n).1 = (expand hl).erase n ∧ (deleteHost hl n).2 = if n ∈ expand hl then 1 else 0 :=
+  deleteHost_expand hl n h hprov
+
+/-- without the proviso: whatever `hostlist_delete_host` does, it either removes one position that holds exactly
+    that name (returning 1), or leaves the list untouched (returning 0) — it never drops or renames another node -/
+theorem C14_delete_one_weak (hl : Hostlist) (n : Name) (h : WF hl) :
+    (∃ i, (expand hl)[i]? = some n ∧ expand (deleteHost hl n).1 = (expand hl).eraseIdx i ∧ (deleteHost hl n).2 = 1)
+    ∨ ((deleteHost hl n).1 = hl ∧ (deleteHost hl n).2 = 0) :=
+  deleteHost_expand_weak hl n h
+
+/-- for lists reached by pushes and deletes no proviso is needed -/
+theorem C14_delete_one_built (hl : Hostlist) (n : Name) (hb : Built hl) :
+    expand (deleteHost hl n).1 = (expand hl).erase n ∧ (deleteHost hl n).2 = if n ∈ expand hl then 1 else 0 :=
+  deleteHost_built hl n hb
+
+/-- F10 again: the member `n100000000` of `n[100000000-100000001]` is not deleted -/
+theorem C14_delete_one_counterexample : "n100000000".toList ∈ expand f10List ∧
+    deleteHost f10List "n100000000".toList = (f10List, 0) := ⟨f10_mem, f10_delete⟩
+
+example : expand (deleteHost (["n1", "n2", "n3", "x", "n2"].map String.toList |>.foldl pushHost []) "n2".toList).1
+    = ["n1", "n3", "x", "n2"].map String.toList := by
+  rw [(C14_delete_one_built _ _ (Built.foldl _ _ Built.nil)).1, C14_push_all]; decide +kernel
+
+/-! ## 5. round trip of the compressed string -/
+
+/- Full-strength statement (FALSE of the code, see the three `…_counterexample`s below):
+     theorem C14_roundtrip_all (names : List Name) :
+       ∃ hl', create (rangedString (names.foldl pushHost [])) = .ok hl' ∧ expand hl' = names -/
+
+/-- compressing a list into host-range notation (`hostlist_ranged_string`) and parsing the string again
+    (`hostlist_create`) yields the same names in the same order — for every list whose ranges are well formed, have
+    prefixes over the legal alphabet (no `[`, `]`, `,`, blank, tab), whose single names are non-empty, and whose ranges
+    hold at most `MAX_RANGE` = 16384 hosts each (`LegalHL`).  Any number of ranges, groups, widths and paddings; the
+    re-parsed list may differ as a list of ranges (widths, merging), never in the names it denotes. -/
+theorem C14_roundtrip (hl : Hostlist) (h : LegalHL hl) :
+    ∃ hl', create (rangedString hl) = .ok hl' ∧ expand hl' = expand hl := roundtrip hl h
+
+/-- the same for lists built by pushing names over the legal alphabet: the string parses back to exactly the names
+    pushed, in order.  The extra hypothesis `hsz` (no range of the built list exceeds 16384 hosts) is needed because
+    `_parse_single_range` refuses larger ranges, which `hostlist_push_host` builds and `hostlist_ranged_string`
+    prints without complaint (`C14_roundtrip_counterexample`). -/
+theorem C14_roundtrip_pushed (names : List Name) (hleg : ∀ n ∈ names, LegalName n)
+    (hsz : ∀ r ∈ names.foldl pushHost [], r.cnt ≤ MAX_RANGE) :
+    ∃ hl', create (rangedString (names.foldl pushHost [])) = .ok hl' ∧ expand hl' = names :=
+  roundtrip_pushed names hleg hsz
+
+/-- a range of 16385 consecutive hosts (what pushing `n0 … n16384` builds) prints as `n[0-16384]`, which
+    `hostlist_create` refuses with `ERANGE`: the library cannot read back its own output -/
+theorem C14_roundtrip_counterexample :
+    rangedString bigRange = "n[0-16384]".toList ∧ create (rangedString bigRange) = .error .erange :=
+  ⟨rangedString_bigRange, roundtrip_counterexample⟩
+
+/-- the alphabet hypothesis is needed: `hostlist_push_host` accepts the name `a,b`, the printed string splits in two -/
+theorem C14_roundtrip_chars_counterexample :
+    expand (pushHost [] "a,b".toList) = ["a,b".toList] ∧
+    (create (rangedString (pushHost [] "a,b".toList))).map expand = .ok ["a".toList, "b".toList] :=
+  roundtrip_chars_counterexample
+
+/-- the non-emptiness hypothesis is needed: the empty name prints as the empty string, which holds no name -/
+theorem C14_roundtrip_nonempty_counterexample :
+    expand (pushHost [] []) = [[]] ∧ create (rangedString (pushHost [] [])) = .ok [] :=
+  roundtrip_nonempty_counterexample
+
+example : LegalHL sampleHL ∧ rangedString sampleHL = "n[08-10,20],login,gpu007".toList := by
+  constructor
+  · unfold LegalHL sampleHL; decide +kernel
+  · decide +kernel
+example : (∀ n ∈ sampleNames, LegalName n) ∧ (∀ r ∈ sampleNames.foldl pushHost [], r.cnt ≤ MAX_RANGE) := by
+  unfold sampleNames; decide +kernel
+
+/-! ## 6. sorting (qsort, then `hostlist_coalesce`, then `hostlist_collapse`) is a permutation of the names
+
+`msort`, `coalesce`, `collapse` of `Sort2.lean` are `partial def`s; `sortHLF` (`SortF.lean`) is their total restatement
+(same merge order, same width side effects, same assert; computed fuel, explicit `.fuel` outcome).  `sortHLF` and `sortHL`
+agree on every list tried (23 hand-written ones recorded in `SortF.lean`, 20000 pseudo-random ones); that agreement is by
+evaluation only, since nothing can be proved about a `partial def`. -/
+
+/-- sorting never adds, drops or renames a node: whenever `hostlist_sort` returns (no assert, fuel not exhausted),
+    the expansion of the result is a permutation of the expansion of the input, duplicates included.  The proof does
+    not depend on the order libc's `qsort` produces: the merge sort is only used as "some permutation of the ranges
+    whose comparisons may rewrite widths", and each iteration of coalesce (splitting two overlapping ranges into
+    up to `2·overlap` pieces) and of collapse (joining two adjacent ranges) preserves the multiset of names.
+    `HWFS` (the shape every constructor produces) is needed, `WF` is not enough: `C14_sort_needs_WFS`. -/
+theorem C14_sort_perm (hl hl' : Hostlist) (hwf : HWFS hl) (h : sortHLF hl = .ok hl') : (expand hl').Perm (expand hl) :=
+  sortHLF_perm hl hl' hwf h
+
+/-- the sorted list is again of the shape every constructor produces -/
+theorem C14_sort_WFS (hl hl' : Hostlist) (hwf : HWFS hl) (h : sortHLF hl = .ok hl') : HWFS hl' :=
+  sortHLF_wfs hl hl' hwf h
+
+/-- in particular membership and the number of hosts are unchanged by sorting -/
+theorem C14_sort_mem (hl hl' : Hostlist) (hwf : HWFS hl) (h : sortHLF hl = .ok hl') (n : Name) :
+    n ∈ expand hl' ↔ n ∈ expand hl := (C14_sort_perm hl hl' hwf h).mem_iff
+
+theorem C14_sort_count (hl hl' : Hostlist) (hwf : HWFS hl) (h : sortHLF hl = .ok hl') :
+    (expand hl').length = (expand hl).length := (C14_sort_perm hl hl' hwf h).length_eq
+
+/-- the pieces, for an arbitrary store / id list satisfying the invariant `Inv` (ids distinct and in bounds, ranges `WFS`):
+    the merge sort returns a permutation of the ids whatever the comparisons answer, and leaves every stored range
+    with the same names (`SEq`) -/
+theorem C14_msort_perm {f : Nat} {st st' : Store} {ids res : List Nat} (h : msortF f st ids = .ok (res, st')) :
+    res.Perm ids ∧ SEq st st' := msortF_perm f st ids res st' h
+
+/-- `hostlist_coalesce` preserves the multiset of names, from any state satisfying `Inv` -/
+theorem C14_coalesce_perm {st st' : Store} {ids ids' : List Nat} (hinv : Inv st ids) (h : coalesceF st ids = .ok (ids', st')) :
+    Inv st' ids' ∧ (den st' ids').Perm (den st ids) := coalesceF_spec hinv h
+
+/-- `hostlist_collapse` preserves the multiset of names, from any state satisfying `Inv` -/
+theorem C14_collapse_perm {st st' : Store} {ids ids' : List Nat} (hinv : Inv st ids) (h : collapseF st ids = .ok (ids', st')) :
+    Inv st' ids' ∧ (den st' ids').Perm (den st ids) := collapseF_spec hinv h
+
+/-- F19: sorting `f[97-100,066,97-103]` dies in `assert(hostrange_cmp(h1, h2) <= 0)` of `hostrange_intersect` -/
+theorem C14_sort_abort_counterexample : sortHLF (hlOfString "f[97-100,066,97-103]") = .abort := sortHLF_F19_abort
+
+/-- `WF` alone is not enough for the sort theorem: two single names `x` stored with different `lo`/`hi` fields (which
+    no constructor produces) are joined by `hostlist_collapse` into one, losing a duplicate -/
+theorem C14_sort_needs_WFS :
+    HWF [⟨['x'], 0, 0, 0, true⟩, ⟨['x'], 1, 1, 0, true⟩] ∧
+    sortHLF [⟨['x'], 0, 0, 0, true⟩, ⟨['x'], 1, 1, 0, true⟩] = .ok [⟨['x'], 0, 1, 0, true⟩] ∧
+    expand [⟨['x'], 0, 0, 0, true⟩, ⟨['x'], 1, 1, 0, true⟩] = [['x'], ['x']] ∧
+    expand [⟨['x'], 0, 1, 0, true⟩] = [['x']] := sortHLF_HWF_counterexample
+
+example : HWFS (hlOfString "b2,a[1-3],a[2-5],b1") ∧
+    sortHLF (hlOfString "b2,a[1-3],a[2-5],b1") = .ok (hlOfString "a[1-2],a[2-3],a[3-5],b[1-2]") := by
+  constructor
+  · unfold HWFS; decide +kernel
+  · decide +kernel
 
 end Pm.Props.C14
